@@ -1,7 +1,7 @@
 (* C11 — property theorems.  Nothing but statements, `exact`, Print Assumptions.
    `reach g` : g is reachable from the initial state by ANY sequence of labels, i.e. under every
    interleaving of the accept loop, the handlers, Shutdown, Close, clients, origin and context. *)
-From G11 Require Import Shutdown ShutdownCheck ShutdownProofs ShutdownAccepts ShutdownProgress ShutdownObligations.
+From G11 Require Import Shutdown ShutdownCheck ShutdownProofs ShutdownAccepts ShutdownTrace ShutdownProgress ShutdownObligations.
 Open Scope Z_scope.
 
 (* Shutdown decides "drained" (and then returns nil) only in a state where the counter is zero and
@@ -110,6 +110,24 @@ Theorem T11_trace_inclusion_sound : forall tr,
 Proof. exact accepts_visible_sound. Qed.
 Print Assumptions T11_trace_inclusion_sound.
 
+(* The property on observable histories.  p_check states the clauses on a trace: 1 a request whose first
+   byte arrived after closing was observed has been forwarded; 2 a connection accepted after closing was
+   observed has been served; 3 a response whose round trip ended after closing was observed lacks
+   Connection: close; 4 a response write failed although neither the client vanished nor Close was
+   called; 5 another request was read after a closing response; 6 Shutdown returned nil while a
+   connection registered before the call had not been closed; 7 Shutdown returned an error although the
+   context had not expired; 8 Close returned while a connection registered before the call had not
+   been closed; 10 the counter was read negative; 14 a tunnel ran although closing had been observed
+   before its dial returned.  NO run of the LTS - no interleaving of accept loop, handlers, Shutdown,
+   Close, clients, origin and context, of any length - produces any of them; the only code p_check false
+   can report is 15, which is about what a client saw (client observations have no effect in the LTS).
+   Hence (second part) a recorded trace that the inclusion checker accepts satisfies all of them. *)
+Theorem T11_every_run_satisfies_the_trace_predicates :
+  (forall ls g, runf g0 ls = Some g -> forall code, In code (p_check false (vis ls)) -> code = 15%N) /\
+  (forall tr, accepts_visible tr = true -> forall code, In code (p_check false tr) -> code = 15%N).
+Proof. exact (conj run_satisfies_trace_predicates accepted_trace_satisfies_predicates). Qed.
+Print Assumptions T11_every_run_satisfies_the_trace_predicates.
+
 (* Non-vacuity: a run with an exchange in flight when Shutdown starts, a late connection that blocks
    on the registry lock, the response written with Connection: close, Shutdown returning nil, the late
    connection closed unserved — accepted by the LTS, and all trace predicates hold. *)
@@ -119,4 +137,12 @@ Example T11_example :
              SdRet true; Addr 1%nat; SockClose 1%nat; CliEOF 1%nat; CntIs 0] in
   accepts_f tr = true /\ p_check true tr = [] /\
   accepts_f [Acc 0%nat; Addr 0%nat; SdCall; ClosingSeen; FirstByte 0%nat; ReqRead 0%nat ROk; Fwd 0%nat] = false.
+Proof. exact (conj eq_refl (conj eq_refl eq_refl)). Qed.
+
+(* ... and the predicates are not vacuous: a history that forwards a request first sent after closing was
+   observed is flagged (code 1) - and, as the theorem demands, is not a run of the LTS. *)
+Example T11_example_predicates_bite :
+  let bad := [Acc 0%nat; Addr 0%nat; SdCall; ClosingSeen; FirstByte 0%nat; ReqRead 0%nat ROk; Fwd 0%nat] in
+  p_check false bad = [1%N] /\ accepts_f bad = false /\
+  p_check false [Acc 0%nat; Addr 0%nat; SdCall; ClosingSeen; SdRet true] = [6%N].
 Proof. exact (conj eq_refl (conj eq_refl eq_refl)). Qed.
